@@ -21,6 +21,7 @@ def run(repo, report, tier):
     report.rule("C15.R4", "demultiplexers account for every read (= C04.R1 on the three demultiplexer classes)", "reads dropped by a demultiplexer are not counted")
     report.rule("C15.R5", "a demultiplexer is the only consuming step on its builder paths, excludes --discard-trimmed, and is wired to its own options", "a read is written twice or a template reaches the wrong parameter")
     report.guard("C15.R1", "_open_writers", r1_writers, repo, report)
+    report.guard("C15.R1", "descriptor limit", r1_descriptor_limit, repo, report)
     report.guard("C15.R2", "demultiplexer __call__", r2_routing, repo, report)
     report.guard("C15.R3", "determine_demultiplex_mode", r3_mode, repo, report)
     report.guard("C15.R4", "accounting", r4_accounting, repo, report)
@@ -193,6 +194,19 @@ def r2_routing(repo, report):
                         k2 = f"{i2}.matches[-1].adapter.name" if r.valuation.get(f"truthy:{i2}.matches") else "None"
                         if key != f"({k1}, {k2})":
                             bad.append({"key": key, "expected": f"({k1}, {k2})"})
+        # a read (pair) is dropped only because no writer exists for its key (that is how --discard-untrimmed is implemented
+        # for the combinatorial mode): never before the lookup
+        if infos == 2:
+            for r in rows:
+                dropped = any(e[0] == "aug" and e[1].endswith("_filtered") for e in r.effects) and not any(e[0] == "call" and e[1].endswith(".write") for e in r.effects)
+                if not dropped:
+                    continue
+                i1, i2 = info_names[0], info_names[1]
+                k1 = f"{i1}.matches[-1].adapter.name" if r.valuation.get(f"truthy:{i1}.matches") else "None"
+                k2 = f"{i2}.matches[-1].adapter.name" if r.valuation.get(f"truthy:{i2}.matches") else "None"
+                miss = [k for k, v in r.valuation.items() if v is False and (k == f"in:({k1}, {k2}):self._writers" or k == f"haskey:self._writers[({k1}, {k2})]")]
+                if not miss:
+                    bad.append({"dropped_without_lookup_of": f"({k1}, {k2})", "path": r.describe()["valuation"]})
         report.ob("C15.R2", f"{cname}.__call__ routing key", not bad and nw >= 1, facts={"writes": nw, "problems": bad[:3]}, expected="writers[name of the last match (of R1; of R1 and R2)]", loc=repo.loc(fn), cases=len(rows),
                   why=str(bad[0]) if bad else "")
     # linked adapters: the front part carries the linked adapter's name; names given to the demultiplexer are the adapters' names
@@ -263,3 +277,55 @@ def r4_accounting(repo, report):
             n += 1
             report.ob("C15.R4", o.construct, None if o.state == "UNRECOGNISED" else o.state == "DISCHARGED", facts=o.facts, expected=o.expected, loc=o.loc, why=o.why, cases=o.cases, fact_key=o.fact_key)
     report.floor("C15.R4", "demultiplexer classes", n, 3)
+
+
+def r1_descriptor_limit(repo, report):
+    """One output file per adapter name needs more descriptors than the default soft limit allows for large barcode sets:
+    every output file is opened through open_raise_limit, which on EMFILE ('too many open files' for this process)
+    raises the soft limit and retries, and re-raises every other error."""
+    fn = repo.func("files", "open_raise_limit")
+    ps = params(fn)
+    va = fn.args.vararg.arg if fn.args.vararg else None
+    kw = fn.args.kwarg.arg if fn.args.kwarg else None
+
+    tr = [n for n in ast.walk(fn) if isinstance(n, ast.Try)]
+    ok = len(tr) == 1 and len(tr[0].handlers) == 1 and chain(tr[0].handlers[0].type) == "OSError" and bool(tr[0].handlers[0].name)
+    facts = {}
+    if ok:
+        h = tr[0].handlers[0]
+
+        def hook(ex, node, env_):
+            cn = chain(node.func)
+            if cn == ps[0]:
+                star = [src(a_.value) for a_ in node.args if isinstance(a_, ast.Starred)]
+                dstar = [src(k.value) for k in node.keywords if k.arg is None]
+                ex.effect("call", "retry", f"{star}|{dstar}", node)
+                return Obj("FILE2", nonnull=True)
+            if cn == "raise_open_files_limit":
+                ex.effect("call", "raise_limit", "", node)
+                return Const(None)
+            if cn and cn.startswith("logger."):
+                return Const(None)
+            return None
+
+        from ..lin import Lin
+
+        env = {h.name: Obj("E", nonnull=True), "E.errno": Lin.atom("ERRNO"), f"{h.name}.errno": Lin.atom("ERRNO"), "errno.EMFILE": Lin.atom("EMFILE"), "errno.ENFILE": Lin.atom("ENFILE")}
+        rows = explore(repo, h.body, env, call_hook=hook, inline=False)
+        tbl = {}
+        for r in rows:
+            is_emfile = r.valuation.get("sign:EMFILE-ERRNO")
+            if is_emfile is None:
+                is_emfile = r.valuation.get("sign:ERRNO-EMFILE")
+            what = (r.exit[0], tuple(e[1] + ":" + e[2] for e in r.effects if e[0] == "call"))
+            tbl.setdefault("EMFILE" if is_emfile == 0 else "other" if is_emfile in (-1, 1) else "untested", set()).add(what)
+        facts = {k: sorted(map(str, v)) for k, v in tbl.items()}
+        want_retry = ("fall", ("raise_limit:", f"retry:['{va}']|['{kw}']"))
+        ok = tbl.get("EMFILE") == {want_retry} and tbl.get("other") == {("raise", ())} and "untested" not in tbl
+    report.ob("C15.R1", "open_raise_limit: EMFILE -> raise the soft limit and retry", bool(ok), facts=facts,
+              expected="except OSError as e: if e.errno == errno.EMFILE: raise_open_files_limit(n); f = func(*args, **kwargs) else: raise", loc=repo.loc(fn),
+              why="" if ok else "running out of descriptors while opening one file per adapter is not recovered from (or another error is swallowed)")
+    # every demultiplexing output goes through it
+    c, fo = repo.need_method("FileOpener", "xopen")
+    used = [x for x in calls(fo) if chain(x.func) == "open_raise_limit"]
+    report.ob("C15.R1", "FileOpener.xopen opens through open_raise_limit", len(used) == 1, facts={"calls": [src(x)[:80] for x in used]}, expected="open_raise_limit(xopen.xopen, path, mode, ...)", loc=repo.loc(fo))
